@@ -110,7 +110,7 @@ func newCert(cn string, key *rsa.PrivateKey, nb, na time.Time) *KeyPair {
 
 type World struct {
 	IdP1, IdP2, Attacker, SPEnc, SPSign, Other *KeyPair
-	IdPOld *KeyPair // a store member whose certificate expired before the fake clock (key roll-over leftovers)
+	IdPOld                                     *KeyPair // a store member whose certificate expired before the fake clock (key roll-over leftovers)
 	// a certificate that carries IdP1's name/cert bytes but whose private key is the attacker's cannot
 	// exist (the cert binds the public key); "trusted cert + foreign key" = sign with the attacker key and
 	// embed IdP1's certificate in KeyInfo.
@@ -145,12 +145,12 @@ func certStore(kps ...*KeyPair) *dsig.MemoryX509CertificateStore {
 // ---------- signing ----------
 
 type SignOpts struct {
-	Key       *KeyPair // private key used
-	EmbedCert *KeyPair // certificate placed in KeyInfo (nil: same as Key; see NoKeyInfo)
-	NoKeyInfo bool
-	C14N      string // "exc", "exc-comments", "c14n10", "c14n11", "c14n11-comments"
-	SigAlg    string // dsig.RSASHA1SignatureMethod, ...
-	AfterIssuer bool // place the Signature right after the first child instead of last
+	Key         *KeyPair // private key used
+	EmbedCert   *KeyPair // certificate placed in KeyInfo (nil: same as Key; see NoKeyInfo)
+	NoKeyInfo   bool
+	C14N        string // "exc", "exc-comments", "c14n10", "c14n11", "c14n11-comments"
+	SigAlg      string // dsig.RSASHA1SignatureMethod, ...
+	AfterIssuer bool   // place the Signature right after the first child instead of last
 }
 
 func canonicalizer(name string) dsig.Canonicalizer {
@@ -215,10 +215,10 @@ func signInPlace(el *etree.Element, o SignOpts) error {
 // ---------- encryption (XML-Enc, written out by hand) ----------
 
 type EncOpts struct {
-	DataAlg   string // types.MethodAES128GCM ...
-	Transport string // types.MethodRSAOAEP, MethodRSAOAEP2, MethodRSAv1_5
-	Digest    string // "" (absent), types.MethodSHA1/256/512
-	Detached  bool   // EncryptedKey as sibling of EncryptedData
+	DataAlg   string   // types.MethodAES128GCM ...
+	Transport string   // types.MethodRSAOAEP, MethodRSAOAEP2, MethodRSAv1_5
+	Digest    string   // "" (absent), types.MethodSHA1/256/512
+	Detached  bool     // EncryptedKey as sibling of EncryptedData
 	EmbedCert *KeyPair // recipient cert placed in EncryptedKey KeyInfo (nil: none)
 	To        *KeyPair // public key the symmetric key is wrapped to
 }
